@@ -244,6 +244,8 @@ class Engine(object):
         self.stat_bodies = set()
         self._paths = 0
         self._steps = 0
+        self._fx = {}
+        self.blind = set()             # (unmodelled callee, effectful closure) pairs: analysis blind spots, fail closed
 
     # ------------------------------------------------------------------ public
     def summarise(self, path_or_body, args=None, opaque=None):
@@ -267,6 +269,44 @@ class Engine(object):
             return out
         finally:
             self.opaque = old_opaque
+
+    # ------------------------------------------------------------------ effect scan (blind-spot detection)
+    _FX = ("::save", "::update", "::remove", "Admin::set", "execute_update_admin", "execute_add_hook", "execute_remove_hook",
+           "Hooks::add_hook", "Hooks::remove_hook", "create_claim", "claim_tokens")
+
+    def body_has_effects(self, dp, depth=0):
+        """does the body (transitively, through workspace callees and nested closures) write storage?"""
+        if dp in self._fx:
+            return self._fx[dp]
+        b = self.by_dp.get(dp)
+        if b is None or depth > 12:
+            return False
+        self._fx[dp] = False
+        res = False
+        for blk in b.blocks:
+            if blk["cleanup"]:
+                continue
+            for st_ in blk["stmts"]:
+                if st_["s"] == "assign" and st_["rv"]["r"] == "agg" and st_["rv"].get("ak") == "closure":
+                    if self.body_has_effects(st_["rv"]["closure"], depth + 1):
+                        res = True
+            t = blk["term"]
+            if t["t"] == "call" and "callee" in t:
+                nm = t.get("resolved") or t["callee"]
+                if (nm.startswith(("cw_storage_plus::", "cw_controllers::")) and any(x in nm for x in self._FX)):
+                    res = True
+                cdp = t.get("resolved_dp") or t.get("callee_dp")
+                if cdp in self.by_dp and self.body_has_effects(cdp, depth + 1):
+                    res = True
+        self._fx[dp] = res
+        return res
+
+    def note_blind(self, name, vals_):
+        for v in vals_:
+            for x in _walk_terms(v):
+                if x[0] == "closure" and self.body_has_effects(x[1]):
+                    b = self.by_dp.get(x[1])
+                    self.blind.add((name, b.path if b else x[1]))
 
     # ------------------------------------------------------------------ memory model
     def project(self, st, t, e):
@@ -915,6 +955,18 @@ class Engine(object):
             return h(self, st, name, args, site, depth, t)
         self.unmodelled[name] = self.unmodelled.get(name, 0) + 1
         return self.prims.opaque_call(self, st, name, args, site, t)
+
+
+def _walk_terms(t):
+    stack = [t]
+    while stack:
+        x = stack.pop()
+        if isinstance(x, tuple):
+            if x and isinstance(x[0], str):
+                yield x
+            for y in x:
+                if isinstance(y, tuple):
+                    stack.append(y)
 
 
 class HDict(dict):
